@@ -1,7 +1,7 @@
 (* C17 — Work stays polynomial on unambiguous grammars, left-recursive or not (bounded domain, see DESIGN.md).
    Only statements: each theorem repeats the full statement of a lemma proved elsewhere and is closed by [exact]. *)
 From Coq Require Import String List NArith ZArith Bool.
-From Parsley Require Import Obs Base Grammar Engine Cost CostProofs.
+From Parsley Require Import Obs Base Grammar Engine Cost CostProofs ClosedForm.
 Import ListNotations.
 Open Scope N_scope.
 
@@ -27,4 +27,39 @@ Theorem C17_deterministic :
   calls_of f n = a -> calls_of f n = b -> a = b.
 Proof. exact @CostProofs.calls_deterministic. Qed.
 Print Assumptions C17_deterministic.
+
+(* UNBOUNDED, first family: for EVERY n >= 1 and any fuel >= 5n+14, parsing a b^(n-1) with P -> P b | a under Sentence succeeds,
+   makes exactly (n^2 + 9n + 16)/2 parser calls (298 for n = 20, the number pinned in main_test.go), leaves exactly n+2 cache
+   entries and n+2 nested body executions — proved symbolically by induction on the curtailment depth. *)
+Theorem C17_direct_closed_form :
+  forall n fuel : nat,
+  (1 <= n)%nat ->
+  (5 * n + 14 <= fuel)%nat ->
+  exists c : ctx,
+    parse_top (dinp n) (fm_rules fam_direct) fuel (sentence (fm_root fam_direct)) =
+    Ok (TopNode [top_node n] c) /\
+    calls c = closed_form n /\
+    cache c = centries n (S (S n)) 0 /\ g_bodies c = glog (S (S n)) 0.
+Proof. exact @ClosedForm.direct_run_closed_form. Qed.
+Print Assumptions C17_direct_closed_form.
+
+(* Hence for all n >= 1: calls(2n) <= 4 calls(n) and calls(n) <= 4 (n+1)^2 — quadratic for all input lengths. *)
+Theorem C17_direct_growth_unbounded :
+  forall n f1 f2 : nat,
+  (1 <= n)%nat ->
+  (5 * n + 14 <= f1)%nat ->
+  (10 * n + 14 <= f2)%nat ->
+  exists a b : N,
+    direct_calls f1 n = Some a /\
+    direct_calls f2 (2 * n) = Some b /\
+    b <= 4 * a /\ a <= 4 * (N.of_nat n + 1) ^ 2 /\ b <= 4 * (2 * N.of_nat n + 1) ^ 2.
+Proof. exact @ClosedForm.direct_growth_unbounded. Qed.
+Print Assumptions C17_direct_growth_unbounded.
+
+(* The closed form agrees with the function the bounded theorem computes with. *)
+Theorem C17_direct_calls_of :
+  forall n : nat,
+  (1 <= n)%nat -> N.of_nat n <= 3997 -> calls_of fam_direct n = Some (closed_form n).
+Proof. exact @ClosedForm.calls_of_closed_form. Qed.
+Print Assumptions C17_direct_calls_of.
 
